@@ -180,7 +180,7 @@ def _closure_payload_roots(F, q, roots, depth=0):
     provenance in the enclosing function is the parameter's provenance (`s.rfind(c).filter(|&i| ..s[i + 1..]..).map(|i| ..s[..i]..)`)"""
     if '::{closure#' not in q or depth > 2:
         return []
-    if not any(rr[0] == 'param' and rr[1] >= 2 and not rr[2] for rr in roots):
+    if not any(rr[0] == 'param' and rr[1] >= 2 for rr in roots):
         return []
     parent = q.rsplit('::{closure#', 1)[0]
     if parent not in F.fn_bodies:
@@ -188,12 +188,17 @@ def _closure_payload_roots(F, q, roots, depth=0):
     out = []
     for i, c in F.calls(parent):
         cal = callee_of(c)
-        if not cal.startswith(('std::option::Option', 'core::option::Option', 'std::result::Result', 'core::result::Result')):
+        is_iter = cal.startswith(('std::iter::Iterator::', 'core::iter::Iterator::', 'std::iter::traits::', 'core::iter::traits::')) or ' as std::iter::Iterator>::' in cal \
+            or ' as std::iter::DoubleEndedIterator>::' in cal
+        if not is_iter and not cal.startswith(('std::option::Option', 'core::option::Option', 'std::result::Result', 'core::result::Result')):
             continue
         if not any(r[0] == 'agg' and r[1][0] == 'closure' and r[1][1] == q for a in c['args'][1:] for r in F.trace(parent, a)):
             continue
         rs = F.trace(parent, c['args'][0], deep=True)
         out += rs
+        if is_iter:
+            # the closure of an iterator adaptor / consumer (map, for_each, fold, ...) is applied to the items: what a `for` loop gets from next()
+            out.append(('call', 'std::iter::Iterator::next', i, (), c))
         out += _closure_payload_roots(F, parent, rs, depth + 1)
     return out
 
